@@ -283,6 +283,11 @@ namespace c02
             delete obj[1];
         }
         int nops() override { return (int)ops.size(); }
+        bool recreates(int o) const // the operation destroys an object and builds a new one in its place
+        {
+            int k = ops[o].kind;
+            return k == K_REBUILD_DEFAULT || k == K_COPY_CTOR || k == K_MOVE_CTOR || (k >= K_CTOR_IL_CONST && k <= K_CTOR_COUNT) || k == K_CTOR_RANGE_MOVE_ITER || k == K_CTOR_RANGE_INPUT_ITER;
+        }
         string opname(int o) override
         {
             if (tab->names.empty())
